@@ -3,7 +3,7 @@ LIB = "src/lib.rs"
 TR = "src/render/text_renderer.rs"
 CSS = "src/css.rs"
 PARSER = "src/css/parser.rs"
-ALL = ["C01", "C02", "C03", "C05", "C06", "C07", "C08", "C09", "C10", "C11", "C14", "C15", "C16", "C17", "C18", "C19"]
+ALL = ["C01", "C02", "C03", "C05", "C06", "C07", "C08", "C09", "C10", "C11", "C14", "C15", "C16", "C17", "C18", "C19", "C20"]
 
 BENIGN = [
     dict(name="benign:comments-and-blank-lines", props=ALL, edits=[
